@@ -24,14 +24,14 @@ from fractions import Fraction
 from ..runner import ROOT, Infra
 
 THEOREMS = [
+    "toPoly_def", "toPoly_coeff", "fromRatio_def",
     "pow", "pow_fpa", "choose_eq",
-    "eval_partial", "eval_fpa_partial", "schemes", "estrin_zero_iff", "eval_d0_as_written", "eval_estrin_witness",
-    "eval_fpa_estrin_witness",
-    "horner_partial", "horner_reverse_as_written", "horner_reverse_witness",
-    "rpoly", "rpoly_fpa", "ratio_roundtrip", "ratio_inverse", "ratio_eval",
-    "laurent_partial",
-    "mul", "add", "mul_eval", "add_eval", "deriv", "deriv_coeff", "taylor", "taylor_eval",
-    "divmod_partial", "divmod_none_iff", "divmod_quotient_witness", "divmod_degree_witness",
+    "eval", "eval_fpa", "schemes", "estrin_zero_iff", "eval_shipped",
+    "horner", "rpoly", "rpoly_fpa", "ratio_inverse", "ratio_roundtrip",
+    "laurent", "laurent_shipped",
+    "mul", "add", "deriv", "taylor", "taylor_size", "taylor_eval",
+    "divmod", "divmod_none_iff",
+    "regression_d0_branch", "regression_horner_reverse", "regression_divmod",
 ]
 SEARCHED = [
     "estrin_dac_scheme(k) = int(math.log(k)) equals the model's threshold table (checked for every k up to the tier bound, not proved: math.log is libm)",
@@ -666,13 +666,11 @@ def symbolic_cases(ctx):
                 for n in range(1, nmax + 1):
                     out.append(["fastpoly", md, sch, rev, "x"] + A(n))
     # the len(coeffs) > 500 switch (polynomial.py), and the same sizes on the fpa variant
-    big = [(500, "none"), (501, "none"), (502, "none"), (501, "horner"), (501, "balanced")] if q else \
-        [(n, s) for n in (500, 501, 502, 641) for s in SCHEMES]
+    big = [(n, s) for n in ((500, 501, 502) if q else (499, 500, 501, 502, 503, 641)) for s in SCHEMES]
     for n, sch in big:
         for rev in "01":
             out.append(["fastpoly", "poly", sch, rev, "x"] + A(n))
-            if not q or sch == "none":
-                out.append(["fastpoly", "fpa", sch, rev, "x"] + A(n))
+            out.append(["fastpoly", "fpa", sch, rev, "x"] + A(n))
     for rev in "01":
         for n in range(1, nmax + 1):
             out.append(["horner", rev, "x"] + A(n))
@@ -766,7 +764,7 @@ def T(l):
 def rational_cases(ctx):
     rng = ctx.rng
     out = []
-    reps = ctx.scale(1, 8)
+    reps = ctx.scale(3, 12)
     # --- evaluation: degree 0..40 every scheme/flag, plus > 500
     for _ in range(reps):
         for n in range(1, 42):
@@ -950,12 +948,17 @@ def run(ctx):
     ctx.notes["cases"] = dict(corpus=n_corpus, symbolic=len(sym), tables=len(tab), rational=len(rat))
 
     # real code
+    import time
+    t0 = time.time()
     reals = []
     for dom, toks in cases:
         reals.append(real_line(dom, toks))
+    t1 = time.time()
     # model
     lines = [dom + " " + " ".join(toks) for dom, toks in cases]
     out = ctx.lean.driver("Poly", lines)
+    t2 = time.time()
+    ctx.notes["seconds"] = dict(real_code=round(t1 - t0, 1), lean_driver=round(t2 - t1, 1))
     if len(out) != len(lines):
         raise Infra(f"driver returned {len(out)} lines for {len(lines)} commands")
 
@@ -1030,20 +1033,23 @@ def replay(ctx, obj):
     return 0 if fail is None else 1
 
 
-LEVEL_TEXT = ("Proof. Theorems (Lean kernel; every degree, every coefficient value, any commutative ring, a field where division occurs): "
-              "fast_exponent_by_squaring(x,n) = x^n; both fast_polynomial recursions (polynomial.py with its len>500 switch, and the "
-              "context version) equal sum c_i x^i for every scheme with 1 <= scheme(k) <= k on k >= 2 (horner, balanced, canonical proved to "
-              "qualify; estrin proved to return 0 exactly at k = 2), both reverse flags; horner(reverse=False); rpolynomial = evaluation of "
-              "the prefix-product coefficients and asrpolynomial is its inverse (non-zero coefficients); laurent (all four cases, z != 0); "
-              "multiply/add/derivative/taylorat are Mathlib's polynomial product, sum, iterated derivative and Taylor shift; divmod returns "
-              "P = Q*D + R with deg R < deg D whenever its loop is regular. Where the code as written is wrong the full statement is kept "
-              "in a comment, the exact partial theorem is proved and a kernel-checked negation witness is replayed on the real code "
-              "(d == 0 branch, horner(reverse=True), divmod when the quotient has a zero coefficient). The model is tied on every run by "
-              "executing the real functions on formal coefficients for every degree up to the tier bound x scheme x flags and comparing "
-              "expanded forms with the Lean model, plus seeded rational correspondence for data-dependent paths.")
+LEVEL_TEXT = ("Proof. Theorems (Lean kernel; every degree, every coefficient value, every argument, any commutative ring, a field where the "
+              "code divides): fast_exponent_by_squaring(x,n) = x^n (both modules); both fast_polynomial recursions (polynomial.py with its "
+              "len>500 switch to the alternative scheme, and the context version, d == 0 branch included) equal sum c_i x^i for every scheme "
+              "with scheme(k) <= k, hence for all shipped schemes (horner, estrin = floor(ln k), balanced, canonical - each proved admissible; "
+              "estrin proved to take the d == 0 branch exactly at k = 2), both reverse flags; horner both flags; rpolynomial = evaluation of the "
+              "prefix-product coefficients for every ratio list, and asrpolynomial is the inverse conversion wherever it does not divide by "
+              "zero; laurent, all four cases and both flags (z != 0 only when m < 0); multiply/add/derivative/taylorat are Mathlib's polynomial "
+              "product, sum, n-fold derivative and Taylor shift (plus the docstring identity and the size= truncation); divmod returns (Q, R) "
+              "with P = Q*D + R, deg R < deg D, Q = P / D and R = P % D in Mathlib's Euclidean structure, for every non-zero divisor, trailing "
+              "zeros allowed. The model is tied on every run by executing the real functions on formal coefficients for every degree up to the "
+              "tier bound x scheme x flags and comparing expanded forms with the Lean model, plus seeded rational correspondence for the "
+              "data-dependent paths; the three defects found while building the check (d == 0 branch, horner reverse=True, divmod with a zero "
+              "quotient coefficient) were fixed in /repo and are kept as kernel-evaluated regression witnesses replayed on the real code.")
 LEVEL_NOTE = ("Trusted: Lean kernel (axioms propext, Classical.choice, Quot.sound); the hand model Models/Poly.lean (validated by the symbolic "
               "and rational correspondence each run: agreement over Z[formal variables] for a given length means agreement over every "
               "commutative ring for that length; lengths above the tier bound rest on the model being a faithful port); CPython "
               "int/Fraction/list semantics, math.comb, math.log. estrin_dac_scheme = int(math.log k) is a table in the model, compared for "
-              "every k up to the tier bound. Known findings are listed in known_findings.json.")
-TECHNIQUE = "Lean 4 proofs by strong induction over a generic-ring model + symbolic-circuit correspondence with the real functions + exact rational search"
+              "every k up to the tier bound and around each threshold up to 4.8e8. User-supplied schemes returning d > k or negative values "
+              "are outside the theorems (the code recurses forever / slices wrongly there).")
+TECHNIQUE = "Lean 4 proofs by induction over a generic-ring model (Mathlib Polynomial as specification) + symbolic-circuit correspondence with the real functions + exact rational search"
